@@ -1039,13 +1039,22 @@ reg(dict(
 # =============================================================================================
 # group "stream": C08  (PktSeq.tla generator + StreamMon.tla over the raw byte stream)
 
-def c08_decode_for(ver, role):
+C08_WIN1 = [9, 4, 5, 14, 19, 6]      # token subset of the "win1" configurations
+
+
+def c08_decode_for(ver, role, win1=False):
     def dec(tokens, variant):
-        cfg = dict(role=role, ver=ver, gate_pub=0, gate_proto=0, max_qos=2, max_receive=16, max_send=4, raw=1)
-        extra = {"mps": 64, "rm": 4} if ver == 5 else None
+        cfg = dict(role=role, ver=ver, gate_pub=0, gate_proto=0, max_qos=2, max_receive=16, max_send=1 if win1 else 4, raw=1)
+        extra = {"mps": 64, "rm": 1 if win1 else 4} if ver == 5 else None
         cmds = [handshake(role, ver, connack=extra, connect=extra)]
         nxt = 1
         cur = 0        # current streaming sender
+        if win1:
+            # the send window (1) is full and a second publish waits for a slot when the sequence starts
+            cmds += [{"c": "send", "s": 1, "k": "q1", "id": 0}, {"c": "poll", "s": 1},
+                     {"c": "send", "s": 2, "k": "q1", "id": 0}, {"c": "poll", "s": 2}]
+            nxt = 3
+            tokens = [C08_WIN1[t - 1] for t in tokens]
         for t in tokens:
             if t == 1:
                 cmds.append({"c": "send", "s": nxt, "k": "q0", "plen": 3}); nxt += 1
@@ -1086,6 +1095,8 @@ def c08_decode_for(ver, role):
                     cmds.append({"c": "in", "p": {"t": "pingreq"}})
             elif t == 17:
                 cmds.append({"c": "send", "s": nxt, "k": "q0", "id": 7, "plen": 3}); nxt += 1
+            elif t == 19:   # every waiting send future is polled (a sender woken by an acknowledgement resumes)
+                cmds.append({"c": "pollall"})
         cmds.append({"c": "settle"})
         return cfg, cmds
     return dec
@@ -1100,6 +1111,10 @@ def c08_configs(tier):
                 cs.append((f"v{ver}{role[0]}_l4", PKTSEQ_CFG.format(nt=18, maxlen=4, minlen=3), "PktSeq", c08_decode_for(ver, role), [None]))
             else:
                 cs.append((f"v{ver}{role[0]}_l4", PKTSEQ_CFG.format(nt=18, maxlen=4, minlen=1), "PktSeq", c08_decode_for(ver, role), [None]))
+            # a publish waiting for a window slot while a payload is streamed: every sequence (<= 4 quick, <= 5) over
+            # {start streamed QoS 0 / QoS 1 publish, chunk, chunk, acknowledgement, poll all senders}
+            cs.append((f"v{ver}{role[0]}_win1", PKTSEQ_CFG.format(nt=len(C08_WIN1), maxlen=4 if tier == "quick" else 5, minlen=2), "PktSeq",
+                       c08_decode_for(ver, role, True), [None], 2000 if tier == "quick" else 100000))
     return cs
 
 
